@@ -17,7 +17,7 @@ UNPROVED = ["edge count of the cubic's regular sampling (depends on the lookup t
             "the hypothesis itself inherits quadrature accuracy) — sampled", "that `_orig` is set on every edge (object attribute, checked on every generated case)"]
 ASSUMPTIONS = ["sample lists start at parameter 0 and end at 1 (C16: regular_total; `sample` appends the end point)"]
 LEVEL_TEXT = ("theorems about joinLines over any sample list: joinLines_chain / flatten_on_curve (a connected chain of Line segments from the curve's start to its end, "
-              "every vertex the curve's point at a listed parameter), joinLines_length, chord_chain, chain_append (path = concatenation), quad_edge_count, walk_length; "
+              "every vertex the curve's point at a listed parameter), joinLines_length, cubic_edge_count / cubic_edge_count_bound (CubicBezier.flatten: one edge per target arc length of regularSampleTValue but at most one; more than L/(2d) edges when L > 2d, given that the lookup table's last entry reaches every target), chord_chain, chain_append (path = concatenation), quad_edge_count, walk_length; "
               "with C16's regular_total / regular_nondecreasing for the parameter lists. Model tied to the flatten methods by replaying the recorded sample points")
 LEVEL_NOTE = "trusted: Lean kernel + Mathlib, axioms {propext, Classical.choice, Quot.sound}, hand model (correspondence per run)"
 TECHNIQUE = "hand model over arbitrary sample lists; list induction"
